@@ -28,14 +28,14 @@ func genCase(r *gen.Rand, o *gen.Out, eng, focus string) (caseCfg, []string) {
 	// graceful stop while draining, 3 Start inside a terminating run's tail, 4 Start overlapping the
 	// nested Start of a recovery, 5 overlapping waits, 6 shutdown, 7 retries to exhaustion, 8 store
 	// failures, 9 v1 tomb bookkeeping race)
-	w := []int{40, 8, 8, 8, 8, 7, 7, 6, 8, 5}
+	w := []int{40, 8, 8, 8, 8, 7, 7, 6, 8, 5, 8, 5}
 	switch focus {
 	case "c10":
-		w = []int{36, 12, 10, 0, 0, 2, 12, 12, 6, 10}
+		w = []int{36, 12, 10, 0, 0, 2, 12, 12, 6, 10, 14, 3}
 	case "c11":
-		w = []int{36, 3, 0, 14, 12, 14, 4, 3, 10, 4}
+		w = []int{36, 3, 0, 14, 12, 14, 4, 3, 10, 4, 3, 12}
 	case "c12":
-		w = []int{50, 10, 0, 12, 0, 10, 4, 4, 4, 6}
+		w = []int{50, 10, 0, 12, 0, 10, 4, 4, 4, 6, 16, 2}
 	}
 	fam := r.Pick(w...)
 	forceBias := focus == "c12"
@@ -250,6 +250,45 @@ func genCase(r *gen.Rand, o *gen.Out, eng, focus string) (caseCfg, []string) {
 		}
 	case 9: // v1: a node's error is returned but not yet recorded on the tomb when the cleanup wakes
 		add("start", "settle", "gate:nodestopped", "inj:"+kind(), "reach:nodestopped", "settle", "open:nodestopped", past, "settle")
+	case 10: // a stop / shutdown whose drain cannot finish (destination withholds its acks), then a force
+		// stop; and a FATAL error surfacing while a graceful stop / shutdown is in progress
+		switch r.Pick(4, 2, 3, 2) {
+		case 0: // StopAll(graceful), drain blocked, force Stop
+			if cfg.nrec == 0 {
+				cfg.nrec = 1
+			}
+			add("hold", "start", "settle", "astopall:g:1", "sleep:15", "stop:f", "settle", "release", "join:1", past, "settle")
+		case 1: // user graceful Stop, drain blocked, force Stop (v1 Stop returns at once; v2 Stop waits for the batch)
+			if cfg.nrec == 0 {
+				cfg.nrec = 1
+			}
+			if eng == "v1" {
+				add("hold", "start", "settle", "stop:g", "sleep:15", "stop:f", "settle", "release", past, "settle")
+			} else {
+				add("hold", "start", "settle", "astopall:f:1", "join:1", "settle", "release", past, "settle")
+			}
+		case 2: // fatal teardown error during the shutdown drain
+			add("start", "settle", "dtf:F", "stopall:g", past, "settle")
+		case 3: // … during a user's graceful stop
+			if r.Chance(1, 2) {
+				add("start", "settle", "dtf:F", "stop:g", past, "settle")
+			} else {
+				add("start", "settle", "dtf:F", "saw", past, "settle")
+			}
+		}
+		if r.Chance(1, 3) {
+			add("start", "settle", "stop:g", "settle")
+		}
+	case 11: // the run ends while its own StatusRunning write is still in flight (slow status store, source
+		// that fails on its first Read): the terminal status must not be overwritten by the late Running
+		k := kind()
+		add("holdrun", "failfirst:"+k, "astart:1", "reachrun", fmt.Sprintf("sleep:%d", r.Range(20, 50)), "releaserun", "join:1", "settle")
+		if k == "T" {
+			add(past, "settle")
+		}
+		if r.Chance(1, 2) {
+			add("stop:"+gf(), "settle")
+		}
 	case 8: // store failures
 		switch r.Pick(2, 2, 2) {
 		case 0:
